@@ -108,14 +108,21 @@ func checkC12(c *Ctx, r *Report) {
 		r1.Check(okSel, "waitForDirectConn: blocking select has a <-ctx.Done() arm on WithTimeout(ctx, GetDialPeerTimeout(ctx))", f.Pos(), 1, "", "the wait for a direct connection is unbounded or ignores the caller's context", "")
 		// cancellation arm unregisters: returns of ctx.Err() pass a write to directConnNotifs.m
 		mapKey := "struct{sync.Mutex; m map[" + Mod + "core/peer.ID][]chan struct{}}.m"
-		isNotifWrite := func(in ssa.Instruction) bool {
+		isNotifWrite0 := func(in ssa.Instruction) bool {
 			switch x := in.(type) {
 			case *ssa.MapUpdate:
 				f, _ := loadOfField(strip2(x.Map))
 				return f != nil && f.Name() == "m" && strings.Contains(types.TypeString(x.Map.Type(), nil), "chan struct{}")
+			case *ssa.Call:
+				// deleting the (emptied) waiter list is a removal too
+				if calleeKey(x) == "builtin.delete" && len(x.Call.Args) == 2 {
+					f, _ := loadOfField(strip2(x.Call.Args[0]))
+					return f != nil && f.Name() == "m" && strings.Contains(types.TypeString(x.Call.Args[0].Type(), nil), "chan struct{}")
+				}
 			}
 			return false
 		}
+		isNotifWrite := func(in ssa.Instruction) bool { return passesLike(in, isNotifWrite0, 2) }
 		_ = mapKey
 		for _, ret := range returnsOf(f) {
 			if isResultOfCall(retVal(ret, 1), 0, "(context.Context).Err") != nil {
@@ -284,6 +291,34 @@ func checkC12(c *Ctx, r *Report) {
 	}
 	if nPairs < 2 {
 		r2.Fail("dialWorker: bestAcceptableConnToPeer/answer pairs", token.NoPos, fmt.Sprintf("expected 2 pairs (request arm, last-one check), found %d", nPairs), "")
+	}
+
+	// host level: Connect may answer "already connected" without dialing only when the caller did not demand a direct
+	// connection (a peer can be Connected over an unlimited relay: connectedness says nothing about directness)
+	if f := r2.need("(*p2p/host/basic.BasicHost).Connect"); f != nil {
+		dials := findInstrs(f, callPred("(*p2p/host/basic.BasicHost).dialPeer"))
+		var shortcuts []ssa.Instruction
+		for _, ret := range returnsOf(f) {
+			if !isNilConst(retVal(ret, 0)) {
+				continue
+			}
+			if w, _ := (&Cut{Fn: f, Target: isInstr(ret), Sep: inSet(dials)}).Run(c); w != "" {
+				shortcuts = append(shortcuts, ret) // reachable without dialing
+			}
+		}
+		forceDirect := func(v ssa.Value) bool {
+			ci := isResultOfCall(v, 0, netP+".GetForceDirectDial")
+			return ci != nil && isParamVar(c, callArgs(ci)[0], "ctx")
+		}
+		if len(dials) == 0 {
+			r2.Fail("BasicHost.Connect: dialPeer", f.Pos(), "not found", "")
+		} else if len(shortcuts) > 0 {
+			q := &Cut{Fn: f, Target: inSet(shortcuts), Sep: inSet(dials), EdgeCut: edgeBool(forceDirect, false)}
+			w, n := q.Run(c)
+			r2.Check(w == "", "BasicHost.Connect: returns without dialing only when no direct connection was demanded", f.Pos(), n+1, "", "a force-direct Connect reports success on the strength of an existing relayed connection: hole punching reports success without a direct connection", w)
+		} else {
+			r2.OK("BasicHost.Connect: returns without dialing only when no direct connection was demanded", f.Pos(), 1, "every success dials")
+		}
 	}
 
 	// ---- R3 ---------------------------------------------------------------
